@@ -110,6 +110,73 @@ def classify_sort(n):
     raise cmpeval.Unknown("unrecognised sort form %s" % m)
 
 
+
+def _narrowed_by(pred, mpq):
+    """the predicate handed to the archive search, read as a boolean formula: with every atom that asks the archive for the file
+    (find_file / has_file / contains_file, directly or inside a crate-local helper it calls) set to true, the formula must be true
+    under every valuation of its other atoms.  -> None, or (rendered atom, value) of a valuation under which a holder is skipped"""
+    import itertools
+    pred = hirq.strip(pred)
+    body = pred["body"] if pred.get("k") == "closure" else pred
+    ASK = ("find_file", "has_file", "contains_file", "find_file_info")
+
+    def asks_(n, depth=0):
+        for c in hirq.walk(n):
+            if c.get("k") in ("mcall", "call"):
+                nm = c.get("m") or (c.get("fn") or "").split("::")[-1]
+                # (asking for the *requested* name: the argument is a variable, not a fixed string such as "(listfile)")
+                named = [a for a in (c.get("args") or []) if hirq.lit_str(hirq.strip(a)) is None and hirq.strip(a).get("k") in ("path", "mcall", "field", "call")]
+                if nm in ASK and named:
+                    return True
+                cal = mpq.fns.get(c.get("fn") or "")
+                if depth < 2 and named and cal is not None and cal.hir and "::patch_chain::" in cal.path and asks_(cal.hir["body"], depth + 1):
+                    return True
+        return False
+    atoms = []
+
+    def build(n):
+        n = hirq.strip(n)
+        while n.get("k") == "block" and not n.get("stmts") and n.get("e") is not None:
+            n = hirq.strip(n["e"])
+        if n.get("k") == "bin" and n["op"] in ("&&", "||"):
+            return (n["op"], build(n["l"]), build(n["r"]))
+        if n.get("k") == "un" and n.get("op") == "Not":
+            return ("!", build(n["e"]))
+        if n.get("k") == "lit" and "bool" in n.get("v", {}):
+            return ("c", bool(n["v"]["bool"]))
+        atoms.append(n)
+        return ("a", len(atoms) - 1)
+    form = build(body)
+    ask_ix = {i for i, a in enumerate(atoms) if asks_(a)}
+    if not ask_ix:
+        return None
+    other = [i for i in range(len(atoms)) if i not in ask_ix]
+    if len(other) > 6:
+        return None
+
+    def ev(fm, val):
+        if fm[0] == "a":
+            return val[fm[1]]
+        if fm[0] == "c":
+            return fm[1]
+        if fm[0] == "!":
+            return not ev(fm[1], val)
+        a, b = ev(fm[1], val), ev(fm[2], val)
+        return (a and b) if fm[0] == "&&" else (a or b)
+    for vals in itertools.product((False, True), repeat=len(other)):
+        val = {i: True for i in ask_ix}
+        val.update(dict(zip(other, vals)))
+        if not ev(form, val):
+            # name one atom whose flip makes the formula true again
+            for i, v in zip(other, vals):
+                val2 = dict(val)
+                val2[i] = not v
+                if ev(form, val2):
+                    return (hirq.render(atoms[i]), "true" if v else "false")
+            return (hirq.render(atoms[other[0]]), "true" if vals[0] else "false") if other else (hirq.render(body), "evaluated")
+    return None
+
+
 def run(ctx):
     prog = ctx.prog
     mpq = prog.crate("wow_mpq")
@@ -460,6 +527,10 @@ def run(ctx):
             r_ = hirq.render(asks["recv"]) if asks.get("recv") is not None else ""
             if re.search(r"self\.archives\[\(?[^.\]]+\.\.\s*\)?\]", r_) or re.search(r"\.skip\(", r_):
                 ctx.bad(R_ask, "%s|asks-lower-priority-only" % p.split("::")[-1], "%s:%d" % (FILE, ln), "the archive search covers `%s`: the archives *after* the listed one" % r_[:80], "an unlisted file in a higher-priority archive is still shadowed by the listed lower-priority one")
+            elif asks.get("k") == "mcall" and _narrowed_by(asks["args"][0], mpq) is not None:
+                w_ = _narrowed_by(asks["args"][0], mpq)
+                ctx.bad(R_ask, "%s|asks-only-some-archives" % p.split("::")[-1], "%s:%d" % (FILE, ln), "an archive that holds the file is still passed over when `%s` is %s" % (w_[0][:70], w_[1]),
+                        "holding the file must be enough to be found: an archive excluded from the search by some other trait (it has a listfile, a flag, a priority) that holds the name unlisted no longer overrides the listed lower-priority archive, and a name only it holds is reported absent")
             else:
                 ctx.ok(R_ask, {"lookup": p.split("::")[-1], "asks": r_[:100]})
         else:
